@@ -198,20 +198,25 @@ class TriggerHandler:
 
     def __process_call_backs(self, ctx: 'TriggerContext', arg: any, frame: FrameType, event: str, file: str, line: int,
                              function_name: str):
-        # complete, from the top, every pending context that ends at this event: all the contexts opened on a
-        # line of this function, and at most one opened by a call (the one of the innermost invocation).
+        # complete, from the top, the pending contexts that end at this event: at most one opened on a line of
+        # this function and at most one opened by a call (those of the innermost invocation; an invocation
+        # holds at most one of each, so a second one of a kind belongs to an outer invocation of the same name).
         # Two contexts can end at the same event, e.g. a method span and a span on the last line of that method.
         stack = self._callbacks.value
+        line_context_done = False
         while len(stack) > 0:
             context: CallbackContext = stack[-1]
             if not context.at_location(event, file, line, function_name, frame):
                 logging.debug("Not at callback location %s", context.name)
+                break
+            if context.event == 'line' and line_context_done:
                 break
             logging.debug("At callback location %s", context.name)
             stack.pop()
             context.process(ctx, event, frame, arg)
             if context.event != 'line':
                 break
+            line_context_done = True
 
         if len(stack) == 0:
             logging.debug("Callbacks cleared.")
